@@ -19,7 +19,7 @@ ASSUMPTIONS = ['how often a task shared between member chains of a MultiChain is
                'sequential histories']
 BUDGET = {'quick': 75, 'thorough': 1500}
 WANT = {'C07', 'C08', 'C04'}   # in histories with forcing every run / has_data mismatch concerns this property (e.g. results of unforced tasks deleted)
-OPTS = {'max_sessions': 2, 'max_chains': 3, 'max_requests': 7, 'p_inspect': 0.05, 'p_force': 0.35, 'p_fault': 0.07, 'p_fault_force': 0.8, 'p_spawn': 0.05, 'p_shared_registry': 0.2}
+OPTS = {'max_sessions': 2, 'max_chains': 3, 'max_requests': 7, 'p_inspect': 0.05, 'p_force': 0.35, 'p_reset': 0.15, 'p_fault': 0.07, 'p_fault_force': 0.8, 'p_spawn': 0.05, 'p_shared_registry': 0.2}
 
 
 def run_case(case) -> CaseResult:
